@@ -14,6 +14,7 @@ CONSTANTS
   CapPending = FALSE
   MaxHist = 7
   WithdrawOnExpiry = TRUE
+  KeepLaterDeadline = FALSE
   EraseOnLookup = FALSE
 INVARIANTS C03_Derived
 VIEW View
